@@ -9,19 +9,26 @@
 EXTENDS ArrayRules
 
 VOps == Arith \cup Cmp
-VRhsKinds == {"vec", "arr", "int", "float", "nd1", "qty"}
+VRhsKinds == {"vec", "arr", "int", "float", "npnum", "nd1", "qty"}        \* npnum: a numpy scalar that is no Python number (np.float32, np.int64)
 VPool == {IdxOf("1"), IdxOf("m"), IdxOf("cm"), IdxOf("s"), IdxOf("au"), IdxOf("km")}
 \* outcome of a lifted binary operation: raises iff the counts differ or the component operation raises
 VOutcome(c) ==
   IF c.rk = "vec" /\ c.nl # c.nr THEN [raises |-> TRUE, why |-> "components"]
-  ELSE LET comp == Outcome([op |-> c.op, lu |-> c.lu, ru |-> c.ru, rk |-> IF c.rk = "vec" THEN "arr" ELSE c.rk, ls |-> "s2", rs |-> IF c.rk \in {"int", "float"} THEN "s0" ELSE "s2",
+  ELSE LET comp == Outcome([op |-> c.op, lu |-> c.lu, ru |-> c.ru, rk |-> IF c.rk = "vec" THEN "arr" ELSE IF c.rk = "npnum" THEN "float" ELSE c.rk, ls |-> "s2", rs |-> IF c.rk \in {"int", "float", "npnum"} THEN "s0" ELSE "s2",
                              ldt |-> "f8", rdt |-> "f8", fam |-> "units"])
        IN IF comp.raises THEN comp ELSE [comp EXCEPT !.shape = "s2"] @@ [nvec |-> c.nl]
+VRaises(c) == c.nl # c.nr \/ (c.op = "cross" /\ c.nl # 3)
 VCases == {[fam |-> "vbin", op |-> op, nl |-> nl, nr |-> nr, rk |-> "vec", lu |-> i, ru |-> j] : op \in VOps, nl \in 1..3, nr \in 1..3, i \in VPool, j \in VPool}
           \cup {[fam |-> "vbin", op |-> op, nl |-> nl, nr |-> 0, rk |-> rk, lu |-> i, ru |-> j] : op \in VOps, nl \in 1..3, rk \in VRhsKinds \ {"vec"}, i \in VPool, j \in VPool}
           \cup {[fam |-> "vun", op |-> op, nl |-> nl, lu |-> i] : op \in {"neg", "pow2", "sqrt", "abs", "rmul2", "rdiv2", "to_cm", "norm", "isfinite", "sum", "concatenate", "slice", "copy"}, nl \in 1..3, i \in VPool}
           \cup {[fam |-> "vprod", op |-> op, nl |-> nl, nr |-> nr, lu |-> i, ru |-> j] : op \in {"dot", "cross"}, nl \in {3}, nr \in {3}, i \in VPool, j \in VPool}
           \cup {[fam |-> "vprod", op |-> "dot", nl |-> nl, nr |-> nl, lu |-> i, ru |-> j] : nl \in 1..2, i \in {IdxOf("m")}, j \in {IdxOf("m"), IdxOf("cm")}}
+          \* numpy functions of two Vectors / of a sequence of Vectors: component-wise, operands with different counts rejected
+          \cup {[fam |-> "vnp2", op |-> f, nl |-> nl, nr |-> nr, lu |-> IdxOf("m"), ru |-> j] : f \in {"add", "multiply", "maximum", "less", "concatenate"}, nl \in 1..3, nr \in 1..3, j \in {IdxOf("m"), IdxOf("cm")}}
+          \* dot of operands with different counts is rejected
+          \cup {[fam |-> "vprod", op |-> "dot", nl |-> nl, nr |-> nr, lu |-> IdxOf("m"), ru |-> IdxOf("m")] : nl \in 1..3, nr \in 1..3}
+          \* shapes and dtypes: 0-d with n-d operands in both orders, integer and float components mixed
+          \cup {[fam |-> "vmix", op |-> op, nl |-> 3, sh |-> sh, dt |-> dt, lu |-> IdxOf("m"), ru |-> IdxOf("cm")] : op \in {"dot", "cross", "norm"}, sh \in {"0n", "n0", "nn", "00"}, dt \in {"ff", "if", "fi", "ii"}}
 \* unit of dot / cross: the product of the operand units as a physical quantity (dimension of the product)
 ProdDim(c) == DAdd(Dim(PU(c.lu)), Dim(PU(c.ru)))
 
@@ -50,6 +57,6 @@ LiftingLaw == vcase.fam = "vbin" =>
    /\ (vcase.rk = "vec" /\ vcase.nl # vcase.nr) => o.raises
    /\ (vcase.rk # "vec" \/ vcase.nl = vcase.nr) =>
         o.raises = (Strict(vcase.op) /\ ~Compatible(PU(vcase.lu), IF vcase.rk \in {"vec", "arr", "qty"} THEN PU(vcase.ru) ELSE Unit0))
-VEmit == vcase.fam = "none" \/ PrintT(ToJson([c |-> vcase, o |-> IF vcase.fam = "vbin" THEN VOutcome(vcase) ELSE [raises |-> FALSE],
+VEmit == vcase.fam = "none" \/ PrintT(ToJson([c |-> vcase, o |-> IF vcase.fam = "vbin" THEN VOutcome(vcase) ELSE [raises |-> IF vcase.fam \in {"vnp2", "vprod"} THEN VRaises(vcase) ELSE FALSE],
                                                names |-> [l |-> PN(vcase.lu), r |-> IF "ru" \in DOMAIN vcase THEN PN(vcase.ru) ELSE ""]]))
 ====
